@@ -5,8 +5,10 @@ event position: the four per-record conversions, every module's to_json, every c
 inside json.dumps, missing results, non-ModuleResults values; the values vary in type, truthiness, shape of
 what to_json returns and kind of unencodable content, see RULE) with a pre-existing target file; for
 prepare_output_directory on real temporary directories (entry classes x run mode x where the log file lives x
-current directory); and for the order of main._run_antismash (real function, real prepare_output_directory
-and write_to_file, recorded collaborators with injected stage faults)."""
+current directory); for the order of main._run_antismash (real function, real prepare_output_directory
+and write_to_file, recorded collaborators with injected stage faults); and for the wrapper main.run_antismash
+(function 5: refusal test, then the logging set-up, then _run_antismash), next to which a tree-snapshot probe
+(outer_run_probe) watches refused directories, also when the output directory is derived from the input name."""
 import fnmatch
 import hashlib
 import io
@@ -28,9 +30,10 @@ EXC = {1: ValueError, 2: AssertionError, 3: IndexError, 4: KeyError, 5: TypeErro
 FAULT_KINDS = [1, 4, 5, 9, 3, 10, 2, 99]
 LATE_EXC = {3: ValueError, 4: KeyError, 5: TypeError, 6: RuntimeError}
 # finding classes the model can attribute a spec failure to.  None at present: hidden_entry_ignored (FC20a),
-# glob_metachar_dirname (FC20b) and cwd_entry_taken_for_logfile (FC20c) are repaired in /repo, the model reports
-# guard = 1 / class = 0 everywhere, nothing is suppressed, and their witnesses head the regression corpus
-# (DIR_CORPUS, PIPELINE_CORPUS): if one of them is accepted again the check reports a counterexample.
+# glob_metachar_dirname (FC20b), cwd_entry_taken_for_logfile (FC20c) and logfile_written_into_refused_directory
+# (FC20d) are repaired in /repo, the model reports guard = 1 / class = 0 everywhere, nothing is suppressed, and
+# their witnesses head the regression corpus (DIR_CORPUS, PIPELINE_CORPUS, OUTER_CORPUS and the first cases of
+# outer_run_probe): if one of them comes back the check reports a counterexample.
 FINDING_CLASSES = {}
 
 
@@ -713,12 +716,16 @@ def impl_prepare(kind, reuse, dmeta, classes_, logspec, cwdspec, relname, base):
     return impl_prepare_specs(kind, reuse, dmeta, specs, logspec, (cwdspec, None), relname, base)
 
 
-def impl_prepare_specs(kind, reuse, dmeta, specs, logspec, cwdspec, relname, base, action=None, json_name=None):
-    """ specs: (entry name, is directory); logspec: None (config.logfile == "") or (where, base name, spelling);
-        cwdspec: (kind of current directory, entry name or None); relname: the output directory is given
-        relative to the current directory.  Everything the model is told (where the log file lives, which
+def impl_prepare_specs(kind, reuse, dmeta, specs, logspec, cwdspec, relname, base, action=None, json_name=None,
+                       outer=False):
+    """ specs: (entry name, is directory); logspec: None (config.logfile == "") or (where, base name, spelling
+        [, absent]); cwdspec: (kind of current directory, entry name or None); relname: the output directory is
+        given relative to the current directory.  Everything the model is told (where the log file lives, which
         entry has its name, where the current directory is) is known BY CONSTRUCTION, nothing is computed
-        with the path functions the code under test uses """
+        with the path functions the code under test uses.
+        absent (outer-run probe only): nothing is prepared for the log file - it does not exist yet, and for
+        "newsub" neither does its directory.  outer: the call goes through run_antismash, whose logging set-up
+        appends to the log file: an entry that IS the log file is reported by its index even if it has grown """
     from antismash import main
     from antismash.config import update_config
     for old in os.listdir(base):
@@ -763,15 +770,18 @@ def impl_prepare_specs(kind, reuse, dmeta, specs, logspec, cwdspec, relname, bas
     logfile = ""
     log_where = None
     if logspec:
-        log_where, logname, spelling = logspec
+        log_where, logname, spelling = logspec[:3]
+        log_absent = len(logspec) > 3 and bool(logspec[3])
         if log_where == "sub" and not subdirs:
             log_where = "logs"
         if log_where != "inside" or kind == 1:
             logdir = {"inside": name, "parent": base, "logs": os.path.join(base, "logs"),
-                      "sub": os.path.join(name, subdirs[0]) if subdirs else ""}[log_where]
-            os.makedirs(logdir, exist_ok=True)
+                      "sub": os.path.join(name, subdirs[0]) if subdirs else "",
+                      "newsub": os.path.join(name, "newsub")}[log_where]
+            if not (log_absent and log_where == "newsub"):
+                os.makedirs(logdir, exist_ok=True)
             logpath = os.path.join(logdir, logname)
-            if log_where != "inside" and not os.path.exists(logpath):
+            if log_where != "inside" and not os.path.exists(logpath) and not log_absent:
                 with open(logpath, "w") as handle:
                     handle.write("the real log file")
             logfile = spell(logpath, spelling, cwd)
@@ -787,7 +797,7 @@ def impl_prepare_specs(kind, reuse, dmeta, specs, logspec, cwdspec, relname, bas
         digests[entry] = tree_digest(full)
     fresh = len(names)
     if logspec:
-        env = [1, LOG_WHERE[log_where], names.index(logname) if logname in names else fresh]
+        env = [1, LOG_WHERE.get(log_where, 2), names.index(logname) if logname in names else fresh]   # "newsub": 2
     else:
         env = [0, 9, fresh]
     env += [CWD_DIR[cwd_kind], names.index(cwd_entry) if cwd_kind == "entry" else fresh + 1]
@@ -824,6 +834,8 @@ def impl_prepare_specs(kind, reuse, dmeta, specs, logspec, cwdspec, relname, bas
                     after.append(index[entry])
             elif entry not in index:
                 after.append(-1)
+            elif outer and log_where == "inside" and entry == logname and not isdir_of[entry]:
+                after.append(index[entry])            # its own log file: it may have grown
             elif tree_digest(os.path.join(name, entry)) != digests[entry]:
                 after.append(index[entry] + 1000)
             else:
@@ -1071,7 +1083,7 @@ def impl_pipeline(plan, kind, reuse, dmeta, classes_, logspec, cwdspec, records,
         return out, tail
 
     flat, out, observed, info = impl_prepare_specs(kind, reuse, dmeta, specs, logspec, cwdspec, False, base,
-                                                   action=action, json_name=JSON_NAME)
+                                                   action=action, json_name=JSON_NAME, outer=outer is not None)
     payload = enc_plan(plan) + flat + enc_write_input(0, 0, records, results)[2:]
     return payload, out, observed, info
 
@@ -1090,16 +1102,18 @@ def tree_snapshot(path):
     return snap
 
 
-OUTER_CLASS = "logfile_written_into_refused_directory"       # FC20d
+OUTER_CLASS = "logfile_written_into_refused_directory"       # FC20d (repaired: status fixed, suppresses nothing)
 
 
 def outer_run_probe(chk, known, base):
-    """ main.run_antismash, the wrapper around _run_antismash that sets up logging FIRST (logs.changed_logging
+    """ main.run_antismash, the wrapper around _run_antismash that sets up logging (logs.changed_logging
         creates the directory of the log file and opens the file), on existing directories with foreign content and
         a fresh input: the run must be refused and the directory tree must be what it was, except that a log file
-        that was already there may have grown.  Independent oracle (tree snapshots before / after); not modelled
-        in Coq.  A violation whose only difference is the newly created log file belongs to finding class
-        logfile_written_into_refused_directory """
+        that was already there may have grown.  Independent oracle (tree snapshots before / after), next to the
+        correspondence of function 5 (outer_run_antismash in Model.v).  Regression witnesses of the repaired
+        defect FC20d come first: a violation whose only difference is the newly created log file belongs to finding
+        class logfile_written_into_refused_directory and is reported as a counterexample (it would only be
+        printed as KNOWN-FINDING if known_findings.json listed the class with status known again) """
     rng = chk.rng
     records, results = clean_plan(rng, 1, 1)
     plan = clean_pipeline_plan(rng, 1)
@@ -1107,9 +1121,11 @@ def outer_run_probe(chk, known, base):
     for classes_ in (["file"], ["file", "dir"], ["input_dir", "gbk"], ["hidden", "dir"], ["json", "region", "dir"],
                      ["log", "file"], ["log", "dir", "gbk"]):
         # the log file: none / inside the directory, not there yet / inside, already there (an entry of class "log":
-        # it may grow) / in a sub-directory / outside
+        # it may grow) / in a sub-directory, there or not yet / in a sub-directory that does not exist yet either /
+        # outside
         for logspec in (None, ("inside", "absent.log", 0), ("inside", "absent.log", 3), ("sub", "absent.log", 0),
-                        ("sub", "absent.log", 1), ("inside", "run.log", 0), ("parent", "run.log", 0),
+                        ("sub", "absent.log", 1), ("sub", "absent.log", 0, True), ("newsub", "absent.log", 0, True),
+                        ("newsub", "absent.log", 3, True), ("inside", "run.log", 0), ("parent", "run.log", 0),
                         ("logs", "run.log", 0)):
             outer = {}
             _payload, out, _observed, info = impl_pipeline(plan, 1, False, False, classes_, logspec, "default",
@@ -1117,36 +1133,174 @@ def outer_run_probe(chk, known, base):
             outdir = os.path.join(base, "out")
             before, after = outer.get("before", {}), tree_snapshot(outdir)
             logfile = info["config.logfile"]
-            logrel = os.path.relpath(os.path.abspath(logfile), outdir) if logfile else None
-            added = sorted(set(after) - set(before))
-            removed = sorted(set(before) - set(after))
-            changed = sorted(k for k in before if k in after and before[k] != after[k] and k != logrel)
-            refused = out[:2] == [1, E_INPUT]
-            foreign = [k for k in before if os.sep not in k and k != logrel and not (k == "input" and before[k] == "dir")]
-            if not foreign:
-                chk.count("outer_run_cases_nothing_foreign")        # e.g. the only file is named as the log file
-                continue
-            chk.count("outer_run_cases")
-            if refused and not added and not removed and not changed:
-                continue
-            witness = {"function": "run_antismash (wrapper: logs.changed_logging, then _run_antismash)",
-                       "output directory before": sorted(before), "config.logfile": logfile,
-                       "input": "/data/in.gbk (fresh run)", "outcome": out[:2], "entries added": added,
-                       "entries removed": removed, "entries changed": changed}
-            if refused and added == [logrel] and not removed and not changed and OUTER_CLASS in known:
-                chk.count("known_finding_" + OUTER_CLASS)
-                if not reported:
-                    reported = True
-                    chk.known(known[OUTER_CLASS]["what_fails"])
-                continue
-            chk.count("property_violations")
-            chk.violation("counterexample", "a refused run left the existing output directory changed (run_antismash"
-                          + (", finding class " + OUTER_CLASS + " not listed as known"
-                             if refused and added == [logrel] and not removed and not changed else "") + ")",
-                          {"theorem_or_correspondence": "C20 second clause on the observed directory tree "
-                                                        "(harness oracle, outer run_antismash)",
-                           "input": witness, "implementation": out})
+            reported = outer_verdict(chk, known, outdir, before, after, logfile, out, reported)
+            if reported is None:
+                return
+    # the output directory is not given: it is named after the input (in.gbk -> <current directory>/in)
+    for logname, inner in (("in/absent.log", None), ("in/dir1/absent.log", "dir1"), ("in/newsub/absent.log", None),
+                           ("", None)):
+        out, before, after, outdir, logfile = derived_directory_case(base, logname, inner)
+        reported = outer_verdict(chk, known, outdir, before, after, logfile, out, reported, derived=True)
+        if reported is None:
             return
+
+
+def derived_directory_case(base, logname, inner):
+    """ run_antismash without --output-dir, started in base: the output directory is base/in; it exists and holds
+        file0.txt (and the sub-directory inner); the log file is given relative to the current directory """
+    from antismash import main
+    from antismash.config import update_config
+    options = pipeline_options()
+    for old in os.listdir(base):
+        full = os.path.join(base, old)
+        shutil.rmtree(full) if os.path.isdir(full) else os.remove(full)
+    outdir = os.path.join(base, "in")
+    os.mkdir(outdir)
+    with open(os.path.join(outdir, "file0.txt"), "w") as handle:
+        handle.write("content 0")
+    if inner:
+        os.mkdir(os.path.join(outdir, inner))
+        with open(os.path.join(outdir, inner, "inner.txt"), "w") as handle:
+            handle.write("inner")
+    records, results = [(0, 0, 0, 0, 0)], [[]]
+    plan = {"prereq": 0, "verify": 1, "read": 0, "pre": 0, "annotate": 0, "outputs": 0, "profile": 0,
+            "recs": [(0, 0, 0, 0)]}
+    hooks = Hooks(os.path.join(outdir, JSON_NAME), None)
+    hooks.phase = "pipeline"
+    recs, res = build_objects(hooks, records, results)
+    recs[0].skip, recs[0].pipeline_regions = None, False
+    from antismash.common import serialiser
+    results_obj = serialiser.AntismashResults("in.gbk", recs, res, "v")
+    original_cwd = os.getcwd()
+    root = logging.getLogger()
+    other_handlers, root.handlers = root.handlers, [ErrorCounter()]
+    logging.disable(logging.NOTSET)
+    before = tree_snapshot(outdir)
+    try:
+        os.chdir(base)
+        update_config({"logfile": logname, "output_basename": "", "output_dir": "", "reuse_results": None,
+                       "profile": False, "debug": False, "list_plugins": False, "check_prereqs_only": False})
+        try:
+            with PipelinePatches(plan, hooks, results_obj):
+                out = [0, main.run_antismash("/data/in.gbk", options)]
+        except Exception as exc:  # pylint: disable=broad-except
+            out = [1, local_err_code(exc)]
+    finally:
+        os.chdir(original_cwd)
+        logging.disable(logging.CRITICAL)
+        root.handlers = other_handlers
+        update_config({"output_dir": "", "output_basename": "", "logfile": ""})
+    return out, before, tree_snapshot(outdir), outdir, os.path.join(base, logname) if logname else ""
+
+
+def outer_verdict(chk, known, outdir, before, after, logfile, out, reported, derived=False):
+    """ returns the reported flag, None once a violation has been reported """
+    logrel = os.path.relpath(os.path.abspath(logfile), outdir) if logfile else None
+    added = sorted(set(after) - set(before))
+    removed = sorted(set(before) - set(after))
+    changed = sorted(k for k in before if k in after and before[k] != after[k] and k != logrel)
+    refused = out[:2] == [1, E_INPUT]
+    foreign = [k for k in before if os.sep not in k and k != logrel and not (k == "input" and before[k] == "dir")]
+    if not foreign:
+        chk.count("outer_run_cases_nothing_foreign")        # e.g. the only file is named as the log file
+        return reported
+    chk.count("outer_run_cases_derived_directory" if derived else "outer_run_cases")
+    if refused and not added and not removed and not changed:
+        return reported
+    witness = {"function": "run_antismash (wrapper: refusal test, logs.changed_logging, then _run_antismash)",
+               "output directory": "not given, derived from the input name" if derived else "given",
+               "output directory before": sorted(before), "config.logfile": logfile,
+               "input": "/data/in.gbk (fresh run)", "outcome": out[:2], "entries added": added,
+               "entries removed": removed, "entries changed": changed}
+    # the class of FC20d: refused, and all that was added is the log file and the directories on the way to it
+    on_the_way = bool(logrel) and all(k == logrel or logrel.startswith(k + os.sep) for k in added)
+    in_class = refused and bool(added) and on_the_way and not removed and not changed
+    if in_class and OUTER_CLASS in known:
+        chk.count("known_finding_" + OUTER_CLASS)
+        if not reported:
+            chk.known(known[OUTER_CLASS]["what_fails"])
+        return True
+    chk.count("property_violations")
+    chk.violation("counterexample", "a refused run left the existing output directory changed (run_antismash"
+                  + (", finding class " + OUTER_CLASS + " (repaired as FC20d) is back" if in_class else "") + ")",
+                  {"theorem_or_correspondence": "C20 second clause on the observed directory tree "
+                                                "(harness oracle, outer run_antismash; Coq: "
+                                                "C20_refused_run_writes_nothing)",
+                   "input": witness, "implementation": out})
+    return None
+
+
+# function 5: the wrapper run_antismash against outer_run_antismash (log_setup v) of Model.v.  The witnesses of the
+# repaired defect FC20d (known_findings.json, status fixed) head the cases
+OUTER_CORPUS = [
+    # (kind, reuse, dmeta, entry classes, logspec, cwdspec)
+    (1, False, False, ["file"], ("inside", "absent.log", 0), "default"),          # FC20d: out/file0.txt, out/absent.log
+    (1, False, False, ["file", "dir"], ("inside", "absent.log", 3), "default"),
+    (1, False, False, ["json", "region", "dir"], ("inside", "absent.log", 0), "default"),
+    (1, False, False, ["hidden"], ("inside", "run.log", 0), "default"),
+    (1, False, True, ["file"], ("inside", "absent.log", 0), "default"),
+    (1, False, False, ["dir"], ("inside", "absent.log", 0), "entry"),
+    (1, False, False, ["log", "file"], ("inside", "run.log", 0), "default"),      # its own log file, must not grow either
+    (2, False, False, [], ("inside", "absent.log", 0), "default"),                # not a directory
+    (2, True, False, [], ("logs", "run.log", 0), "default"),
+]
+
+
+def gen_outer_cases(chk, budget):
+    """ (plan, kind, reuse, dmeta, entry classes, logspec, cwdspec, records, results); the log file never lies
+        below a sub-directory of the output directory (the listing of the model has one level), and a log file
+        inside it is called run.log or absent.log (a new log file has a plain visible name) """
+    rng = chk.rng
+    cases = []
+    for kind, reuse, dmeta, classes_, logspec, cwdspec in OUTER_CORPUS:
+        records, results = clean_plan(rng, 1, 1)
+        base_plan = clean_pipeline_plan(rng, 1)
+        cases.append((base_plan, kind, reuse, dmeta, classes_, logspec, cwdspec, records, results))
+        for stage in STAGES[:2]:
+            cases.append((dict(base_plan, **{stage: rng.choice(FAULT_KINDS)}), kind, reuse, dmeta, classes_,
+                          logspec, cwdspec, records, results))
+    chk.count("outer_corpus_cases", len(cases))
+    logspecs = [None, ("inside", "run.log", 0), ("inside", "absent.log", 0), ("inside", "absent.log", 3),
+                ("parent", "run.log", 0), ("logs", "run.log", 2)]
+    for kind, reuse, dmeta, classes_, _logspec in DIR_SCENARIOS:
+        for logspec in logspecs:
+            records, results = clean_plan(rng, 1, 2)
+            plan = clean_pipeline_plan(rng, 1)
+            cases.append((plan, kind, reuse, dmeta, classes_, logspec, "default", records, results))
+    for classes_ in (["log"], ["logdir"], ["log", "file"], ["logdir", "file"], ["input_dir", "log"], ["input_dir"]):
+        for reuse in (False, True):
+            for logspec in logspecs:
+                records, results = clean_plan(rng, 1, 1)
+                cases.append((clean_pipeline_plan(rng, 1), 1, reuse, False, classes_, logspec, "default",
+                              records, results))
+    chk.count("outer_systematic_cases", len(cases))
+    pool = ["file", "dir", "input_dir", "log", "region", "region_dir", "hidden", "json", "gbk", "logdir"]
+    while len(cases) < budget:
+        nrec = rng.choice([0, 1, 1, 2])
+        records, results = clean_plan(rng, nrec, None)
+        plan = clean_pipeline_plan(rng, nrec)
+        r = rng.random()
+        if r < 0.3:
+            stage = rng.choice(STAGES + ["verify"])
+            if stage == "verify":
+                plan["verify"] = 0
+            else:
+                plan[stage] = rng.choice(FAULT_KINDS)
+        elif r < 0.5:
+            pos = [p for p in positions(records, results) if p[0] != "t"]
+            if pos:
+                records, results, _tl = apply_fault(records, results, 0, rng.choice(pos), rng.choice(FAULT_KINDS), rng)
+        kind = rng.choice([0, 1, 1, 1, 1, 1, 2])
+        logspec = None
+        if rng.random() < 0.8:
+            logspec = (rng.choice(["inside", "inside", "inside", "parent", "logs"]), rng.choice(["run.log", "absent.log"]),
+                       rng.randrange(N_SPELLINGS))
+        classes_ = [rng.choice(pool) for _ in range(rng.choice([0, 1, 1, 2, 2, 3, 4]))] if kind == 1 else []
+        if kind == 0 and logspec and logspec[2] == 2:
+            logspec = logspec[:2] + (0,)      # out/../out/absent.log below a missing out/: os.makedirs itself fails
+        cases.append((plan, kind, rng.random() < 0.4, rng.random() < 0.08, classes_, logspec,
+                      rng.choice(["default"] * 6 + ["entry", "outdir"]), records, results))
+    return cases
 
 
 def enc_plan(plan):
@@ -1293,8 +1447,12 @@ RULE = ("write_to_file / dump_records: fault plans over 0-5 records x 0-4 result
         "absolute or relative; plus random listings of 0-6 entries; _run_antismash: the real function on real "
         "directories with recorded collaborators, the regression corpus, 13 directory scenarios x every stage fault / verify_options failing / "
         "every conversion position (truthy or falsy value at the position), plus random plans; run_antismash (the "
-        "wrapper that sets up logging first): 7 directories with foreign content x 8 log file placements, tree "
-        "snapshots before / after (harness oracle, finding class logfile_written_into_refused_directory); non-trivial = a write case with at least one record and at least "
+        "wrapper: refusal test, logging set-up, _run_antismash; function 5): the witnesses of the repaired defect "
+        "FC20d first, then the 13 directory scenarios and 6 log-name listings x 6 log file placements (none / inside "
+        "and there / inside and not yet there / parent / unrelated directory), plus random directories and plans; and "
+        "a tree-snapshot probe of refused directories: 7 directories with foreign content x 11 log file placements "
+        "(also below an existing or a not yet existing sub-directory) and 4 cases in which the output directory is "
+        "derived from the input name (harness oracle, class logfile_written_into_refused_directory); non-trivial = a write case with at least one record and at least "
         "one fault or a successful write, a directory case with at least one entry, every pipeline case; distinct by "
         "flat encoding")
 
@@ -1306,6 +1464,7 @@ def run(chk):
     n_write = 20000 if quick else 300000
     n_dir = 6000 if quick else 60000
     n_pipe = 2500 if quick else 40000
+    n_outer = 700 if quick else 8000
     known = {f["class"]: f for f in common.load_known_findings("C20") if f.get("status") == "known"}
     cases, impl_outs, spec_cases, descr = [], [], [], []
     workdir = tempfile.mkdtemp(prefix="asv_c20_")
@@ -1371,6 +1530,29 @@ def run(chk):
                                                  out[1], common.ERR_NAME.get(out[1], str(out[1])))))
             chk.count("pipeline_events", observed[observed[2] + 4])
             chk.count("pipeline_json_state_after_%d" % observed[observed[2] + 3])
+            chk.note_case(flat, True, {"input": descr[-1], "implementation": out})
+        for plan, kind, reuse, dmeta, classes_, logspec, cwdspec, records, results in gen_outer_cases(chk, n_outer):
+            payload, out, observed, info = impl_pipeline(plan, kind, reuse, dmeta, classes_, logspec, cwdspec,
+                                                         records, results, base, outer={})
+            flat = [PROP, 5] + payload
+            cases.append(flat)
+            impl_outs.append(out)
+            spec_cases.append([PROP, 15] + payload + observed)
+            descr.append(dict({"function": "run_antismash (wrapper: refusal test, logging set-up, _run_antismash)",
+                               "stage plan (fault codes; recs = skip, run_detection fault, regions found, "
+                               "analyse_record fault)": plan,
+                               "output directory exists": {0: "no", 1: "directory", 2: "file"}[kind],
+                               "reuse (--reuse-results)": reuse,
+                               "records [fault to_biopython, record_to_json, gather_record_areas, get_gc_content, "
+                               "original_id]": records,
+                               RESULTS_LEGEND: results}, **info))
+            chk.count("outer_run_antismash")
+            chk.count("outer_outcome_" + ("return_%d" % out[1] if out[0] == 0 else
+                                          "error_" + {E_INPUT: "AntismashInputError"}.get(
+                                              out[1], common.ERR_NAME.get(out[1], str(out[1])))))
+            chk.count("outer_log_" + str(info["log file lives"]).replace(" ", "_"))
+            if out[:2] == [1, E_INPUT] and observed[observed[2] + 4] == 0:
+                chk.count("outer_refused_before_any_stage")
             chk.note_case(flat, True, {"input": descr[-1], "implementation": out})
         outer_run_probe(chk, known, base)
     finally:
@@ -1441,7 +1623,7 @@ def replay(chk, path):
             model = common.run_driver([flat])[0]
             return 1 if (verdict[0] != 1 or model != out) else 0
         plan = None
-        if fn == 4:
+        if fn in (4, 5):
             nrec = payload[7]
             plan = dict(zip(["prereq", "verify", "read", "pre", "annotate", "outputs", "profile"], payload[:7]))
             plan["recs"] = [tuple(payload[8 + 4 * i: 12 + 4 * i]) for i in range(nrec)]
@@ -1454,7 +1636,7 @@ def replay(chk, path):
             entry = "input" if is_input else (f"e{k}.region001.gbk" if region else f"e{k}")
             specs.append((entry if visible else "." + entry, bool(isdir)))
         rest = payload[9 + 5 * count:]
-        if fn == 4 and rest[0] == 0:
+        if fn in (4, 5) and rest[0] == 0:
             # the old JSON is one of the plain visible files (preferably not the one carrying the log's name)
             plain = [k for k in range(count) if specs[k][0] == f"e{k}" and not specs[k][1]]
             plain.sort(key=lambda k: payload[9 + 5 * k] == lg_base)
@@ -1463,13 +1645,13 @@ def replay(chk, path):
         logspec = None
         if lg_given:
             where = {v: k for k, v in LOG_WHERE.items()}.get(lg_dir, "logs")
-            logspec = (where, by_id.get(lg_base, "fresh.log"), 0)
+            logspec = (where, by_id.get(lg_base, "absent.log" if fn == 5 else "fresh.log"), 0)
         cwd_kind = {v: k for k, v in CWD_DIR.items()}.get(cwd_dir, "default")
         cwdspec = (cwd_kind, by_id.get(cwd_base) if cwd_kind == "entry" else None)
         base = os.path.join(workdir, "dirs")
         os.mkdir(base)
         known = {f["class"] for f in common.load_known_findings("C20") if f.get("status") == "known"}
-        if fn == 4:
+        if fn in (4, 5):
             pos = 1
             nrec = rest[pos]
             records = [tuple(rest[pos + 1 + 5 * i: pos + 6 + 5 * i]) for i in range(nrec)]
@@ -1483,9 +1665,10 @@ def replay(chk, path):
                 results.append([tuple(rest[pos + 7 * j: pos + 7 * j + 7]) for j in range(nmod)])
                 pos += 7 * nmod
             payload2, out, observed, info = impl_pipeline(plan, kind, bool(reuse), bool(dmeta), None, logspec, cwdspec,
-                                                          records, results, base, specs=specs)
-            model = common.run_driver([[PROP, 4] + payload2])[0]
-            verdict = common.run_driver([[PROP, 14] + payload2 + observed])[0]
+                                                          records, results, base, specs=specs,
+                                                          outer={} if fn == 5 else None)
+            model = common.run_driver([[PROP, fn] + payload2])[0]
+            verdict = common.run_driver([[PROP, fn + 10] + payload2 + observed])[0]
             print("directory:", info, "implementation now:", out, "model:", model,
                   "spec verdict [ok, guard, class]:", verdict)
             excused = verdict[0] == 0 and verdict[1] == 0 and FINDING_CLASSES.get(verdict[2]) in known
